@@ -238,6 +238,10 @@ Section WithEsc.
     rewrite is_clist_map_calls, disp_calls_ok. reflexivity.
   Qed.
 
+  Variable la : bool.
+  Local Notation structure_calls := (StructWriter.structure_calls la) (only parsing).
+  Local Notation child_calls := (StructWriter.child_calls la) (only parsing).
+
   Lemma children_calls_ok : forall ms ext children rest,
     Forall (fun c => calls_ok (structure_calls ms ext c) true false = true) children ->
     children <> [] -> calls_ok rest false true = true ->
@@ -267,7 +271,7 @@ Section WithEsc.
       ++ (if is_msg h then match emb with
                            | Some child => [envelope_calls Forced (node_env child); CList Adj (structure_calls ms ext child)]
                            | None => [] end else [])
-      ++ (if is_text h || is_msg h then [CNum lines] else [])
+      ++ (if has_lines la h then [CNum lines] else [])
       ++ only_ext ext [CStr (h_md5 h); disp_calls h; CStr (h_lang h); CStr (h_loc h)]
     | _ :: _ =>
       (if is_msg h
@@ -295,19 +299,17 @@ Section WithEsc.
        ++ (if is_msg h then match emb with
                             | Some child => [envelope_calls Forced (node_env child); CList Adj (structure_calls ms ext child)]
                             | None => [] end else [])
-       ++ (if is_text h || is_msg h then [CNum lines] else [])
+       ++ (if has_lines la h then [CNum lines] else [])
        ++ only_ext ext [CStr (h_md5 h); disp_calls h; CStr (h_lang h); CStr (h_loc h)]) true false = true).
     { cbn [app calls_ok call_ok is_clist andb]. rewrite (map_calls_ok Auto (h_params h) false false eq_refl).
       cbn [andb].
       destruct (is_msg h); [destruct emb as [child|]|].
-      - replace (is_text h || true) with true by (symmetry; apply orb_true_r).
-        cbn [app calls_ok]. rewrite (envelope_calls_ok Forced (node_env child) false false eq_refl).
+      - cbn [app calls_ok]. rewrite (envelope_calls_ok Forced (node_env child) false false eq_refl).
         rewrite call_ok_clist. unfold opt_P in Hemb. destruct Hemb as [Hc _]. rewrite Hc.
         replace (is_clist (envelope_calls Forced (node_env child))) with true by reflexivity.
-        cbn [orb andb app calls_ok call_ok is_clist]. apply ext_single_ok.
-      - replace (is_text h || true) with true by (symmetry; apply orb_true_r).
-        cbn [app calls_ok call_ok andb is_clist]. apply ext_single_ok.
-      - destruct (is_text h); cbn [orb app calls_ok call_ok andb is_clist]; apply ext_single_ok. }
+        destruct (has_lines la h); cbn [orb andb app calls_ok call_ok is_clist]; apply ext_single_ok.
+      - destruct (has_lines la h); cbn [app calls_ok call_ok andb is_clist]; apply ext_single_ok.
+      - destruct (has_lines la h); cbn [orb app calls_ok call_ok andb is_clist]; apply ext_single_ok. }
     assert (Hrest : calls_ok ([CStr (h_sub h)] ++
                        only_ext ext [map_calls Auto (h_params h); disp_calls h; CStr (h_lang h); CStr (h_loc h)]) false true = true).
     { cbn [app calls_ok call_ok is_clist andb]. apply ext_multi_ok. }
@@ -334,7 +336,7 @@ Section WithEsc.
   Proof. intros ms ext t. exact (proj1 (tree_calls_ok_all ms ext t)). Qed.
 
   (* ---------- the theorems ---------- *)
-  Theorem writer_structure_wf : forall ms ext t, wf_plist (write_structure esc ms ext t) = true.
+  Theorem writer_structure_wf : forall ms ext t, wf_plist (write_structure esc la ms ext t) = true.
   Proof. intros ms ext t. unfold write_structure. apply exec_wf. apply structure_calls_ok. Qed.
 
   Theorem writer_envelope_wf : forall e, wf_plist (write_envelope esc e) = true.
@@ -346,7 +348,7 @@ Section WithEsc.
   (* the written text read back with the checker is exactly the syntax tree of the call sequence: positions of
      type, subtype, sorted parameters, size, line count ... are those of the MIME tree *)
   Theorem writer_structure_reads_back : forall ms ext t,
-    parse_plist (write_structure esc ms ext t) = Some (PList (ast_list (structure_calls ms ext t) true)).
+    parse_plist (write_structure esc la ms ext t) = Some (PList (ast_list (structure_calls ms ext t) true)).
   Proof.
     intros ms ext t. unfold write_structure. rewrite exec_clist. cbn [app]. rewrite exec_list_render.
     rewrite <- render_list. apply parse_plist_render. rewrite valid_list. apply calls_ok_valid. apply structure_calls_ok.
@@ -362,7 +364,22 @@ Section WithEsc.
       ++ only_ext ext [CStr (h_md5 h); disp_calls h; CStr (h_lang h); CStr (h_loc h)].
   Proof.
     intros ext h env size lines child children Hm. rewrite structure_calls_eq. rewrite Hm.
-    rewrite orb_true_r. reflexivity.
+    assert (Hl : has_lines la h = true).
+    { unfold has_lines. rewrite Hm. unfold is_msg in Hm. apply andb_true_iff in Hm as [Ht _]. rewrite Ht.
+      destruct la; apply orb_true_r. }
+    rewrite Hl. reflexivity.
+  Qed.
+
+  (* a childless part that is neither text/... nor message/rfc822 is written without a line count when the rule is
+     the one of RFC 3501 (la = false) *)
+  Theorem writer_other_leaf_has_no_lines : forall ms ext h env size lines,
+    is_text h = false -> is_msg h = false ->
+    StructWriter.structure_calls false ms ext (MNode h env size lines None []) =
+      [CStr (h_type h); CStr (h_sub h); map_calls Auto (h_params h); CStr (h_id h); CStr (h_desc h); CStr (h_enc h); CNum size]
+      ++ only_ext ext [CStr (h_md5 h); disp_calls h; CStr (h_lang h); CStr (h_loc h)].
+  Proof.
+    intros ms ext h env size lines Ht Hm. cbn [StructWriter.structure_calls map]. rewrite Hm.
+    unfold has_lines. rewrite Ht, Hm. reflexivity.
   Qed.
 End WithEsc.
 
